@@ -30,6 +30,7 @@ T = {
     "T13s": "T13 environment bounds assumed as World well-formedness: every file shorter than 2^62 bytes, fewer than 2^48 records per file, file ids below 2^62",
     "TKV": "TKV unit cmd sees the storage engine through a shim of the KeyValueStorage trait whose contract says: set / get / del that return Ok have exactly the map effect on a ghost map (prelude/cmd_prelude.rs). Unit store states the SAME contract on the real trait declaration of src/storage.rs (contracts/storage.spec, labels C01.kv.*; the ghost map is kv_map(self, World)) and PROVES it for `impl KeyValueStorage for Handle` and, below it, for Handle::{put,get,delete} (C01.handle.*), whose map is model(key directory of the Handle's Writer, files). What remains trusted: that the two statements of the trait contract (one per unit, Bytes compared by content in both) say the same thing -- a textual correspondence of three postconditions -- and TARC",
     "TSPAWN": "TSPAWN rule R-outline: the closure handed to tokio::task::spawn_blocking is moved verbatim into a method of the same impl block and runs at the call site; awaiting the handle yields its value or a JoinError. Scheduling, cancellation and panics inside the closure are not modelled",
+    "TCLOCK": "TCLOCK time and randomness as inputs: chrono::Local::now().time().hour() returns some hour below 24; rand's Uniform::new_inclusive(lo, hi).sample() returns a Duration within [lo, hi]; tokio::time::sleep(d) completes after d (how much later is the runtime's business); std::time::Duration is a number of milliseconds",
     "TSEM": "TSEM tokio::sync::Semaphore as ghost counters (prelude/slots_prelude.rs): acquire completes only when a permit is available and takes it in one atomic step, the permit is held by the returned guard; forget destroys the guard without giving the permit back; add_permits(n) makes n more permits available; the semaphore is never closed (nothing in src/ calls close), so acquire never fails. tokio::spawn starts the task it is given",
     "TDROP": "TDROP Rust runs `Drop for Handler` exactly once when a connection task ends -- by returning, by an error, or while unwinding from a panic -- and never otherwise (rule R-drop reads the destructor as an ordinary method so that it can carry the ghost argument; Verus does not model implicit drops). A SemaphorePermit guard that is dropped without forget gives its permit back: the ghost model records such a guard as `held`, and the loop invariant demands held == 0",
     "TSELECT": "TSELECT rule R-select: tokio::select! { p1 = f1 => e1, p2 = f2 => e2 } is read as `match <nondeterministic> { 0 => { let p1 = f1.await; e1 } _ => { let p2 = f2.await; e2 } }`; rule R-mut-self: `mut self` becomes a local initialised from self; rule R-tryfrom-call routes Command::try_from(frame) in server.rs through a VERIFIED forwarding wrapper (work-around for a crash of this Verus build); crate::shutdown::Shutdown is a shim (is_shutdown returns a ghost flag, recv returns with the flag set)",
@@ -151,6 +152,18 @@ PROPS = {
             "the only exit of listen is the abort after accept failed beyond the back-off limit: there one permit has been taken and is owned by nobody (C15.listen.abort_exit states exactly that); the server is giving up at that point",
             "NOT covered: Server::new (creates the semaphore with conf.max_connections permits: the initial state of theorem_slots; one line, not extracted because of format! / TcpListener::bind), a task that never ends (it keeps its slot, legitimately), panics are covered only through TDROP, and max_connections == 0 (then nothing is ever served)",
             "bounded companion on the real Server over loopback TCP (thorough tier / witness; never counted as proved): with max_connections = 2, connections that end by clean close, in the middle of a frame, after a malformed command and after a protocol error come and go; afterwards two connections must be served concurrently while a third is not served until one of them closes",
+        ],
+    },
+    "C18": {
+        "units": ["store"], "label_prefixes": ["C18."], "level": "proof",
+        "trusted": ["T1", "T8", "T13", "TARC", "TSPAWN", "TSELECT", "TCLOCK", "RW", "DERIVE"],
+        "assumptions": [
+            "SCOPE-LIMITED to the DECISIONS of the two background tasks; every wall-clock clause of the statement ('within one check interval plus jitter plus scheduling slack', 'at least once per interval') is a property of tokio's timer and scheduler and is NOT claimed. Proved on the real text of src/storage/bitcask.rs (unit store): (1) Context::can_merge is false with policy `never`, true only if some file exceeds a trigger (dead bytes above the configured value, or fragmentation above it), and with policy `always` true exactly then (C18.can_merge.*); (2) merge_on_interval with policy `never` never hands a merge to the blocking pool and leaves the directory untouched (C18.merge_task.never_runs); otherwise every turn of its loop is one completed sleep whose duration lies in [interval - jitter, interval + jitter] (C18.merge_task.sleep_within_interval_and_jitter) followed by at most one merge, handed over only if can_merge said so and, with policy `always`, exactly if a trigger is exceeded (C18.merge_task.merge_iff_asked); (3) sync_on_interval does nothing unless the strategy is interval sync (C18.sync_task.only_with_interval_strategy); with it, every turn sleeps exactly the configured number of milliseconds (C18.sync_task.sleeps_the_configured_interval) and is followed by exactly one Handle::sync (C18.sync_task.one_sync_per_tick)",
+            "ghost log BgLog (prelude/store_prelude.rs): the shims of tokio::time::sleep and tokio::task::spawn_blocking count wake-ups and hand-offs and record the last sleep; Duration is a number of milliseconds; `a - b` / `a + b` on Durations are read as methods (R-duration-op; the subtraction carries its panic condition, discharged from jitter <= interval); rand's Uniform::new_inclusive / sample return a value inside the bounds (TCLOCK)",
+            "f64: Verus does not interpret float arithmetic or comparison. LogStatistics::fragmentation is an uninterpreted pure function of the three counters, `x > y` on f64 is an uninterpreted fixed relation (rule R-f64-cmp), Duration::mul_f64 by a factor in the documented range [0, 1] of merge.check_jitter yields at most the interval (precondition unit_range(check_jitter) of merge_on_interval: a jitter above 1 would make `interval - jitter` panic)",
+            "the window policy is covered only by 'true only if a trigger is exceeded'; the hour of day is an unconstrained input (chrono shim)",
+            "R-outline moves the closure of spawn_blocking (`move || handle.merge()` / `handle.sync()`) into a free function called at the hand-off; R-select reads select! as a choice of one arm; R-mut-param; the Handle clone is an equal value (R-arc). can_merge reads the statistics through the Handle's own Context, which under TARC is the Writer's",
+            "NOT covered: background_tasks (builds the runtime and spawns the two tasks; Drop / shutdown wiring), errors of a background merge are only logged (the task keeps running), and time",
         ],
     },
     "C17": {
